@@ -5,11 +5,17 @@ import vf
 MODE = {1: "SecNone", 2: "SecSign", 3: "SecSignEncrypt"}
 # how the scripted server built CreateSessionResponse (certificate, signature) -> the toy encoding of Props/C22.v
 # ([k] = RSA certificate with key k, [0] = ECDSA certificate, [] = not a certificate; signature of d under k = k :: d)
-VALID = {"valid", "othercert_valid"}
+# the Algorithm label of the SignatureData is not consulted by the client: a correctly made signature is valid whatever
+# the label says, a wrong one is invalid whatever the label says
+VALID = {"valid", "othercert_valid", "alg_empty_valid", "alg_unknown_valid", "alg_foreign_valid"}
 CERT = {"eccert": "[0]", "garbagecert": "[]", "nilcert": "[]", "othercert_valid": "[8]"}
 SIG = {"valid": "[7;1;2;3]", "othercert_valid": "[8;1;2;3]", "corrupt": "[7;1;2;4]", "empty": "[]", "zero": "[0;0;0;0]",
        "truncated": "[7;1;2]", "wrongkey": "[8;1;2;3]", "wrongnonce": "[7;1;2;0]", "wrongcert_data": "[7;7;3]",
-       "eccert": "[7;1;2;3]", "garbagecert": "[7;1;2;3]", "nilcert": "[7;1;2;3]"}
+       "eccert": "[7;1;2;3]", "garbagecert": "[7;1;2;3]", "nilcert": "[7;1;2;3]",
+       "alg_empty_valid": "[7;1;2;3]", "alg_unknown_valid": "[7;1;2;3]", "alg_foreign_valid": "[7;1;2;3]",
+       "alg_empty_garbage": "[9;9]", "alg_unknown_garbage": "[9;9]", "alg_foreign_garbage": "[9;9]",
+       "alg_empty_nosig": "[]", "alg_unknown_nosig": "[]", "nil_sigdata": "[]",
+       "alg_empty_wrongkey": "[8;1;2;3]", "alg_foreign_wrongkey": "[8;1;2;3]"}
 CODE = {"value": 0, "error": 1, "panic": 2}
 
 IMPORTS = """From Coq Require Import List String Bool Arith.
@@ -36,7 +42,7 @@ def obs_tuple(o):
 
 
 def run(ctx):
-    n = 400 if ctx.thorough() else 70
+    n = 500 if ctx.thorough() else 90
     proof_ok, detail = True, {}
     ok, out = ctx.regen(["clientsites"])
     if not ok:
@@ -147,7 +153,7 @@ def run(ctx):
     ctx.coverage.update({
         "evaluations": len(obs),
         "distinct_nontrivial": len([k for k in cfgs if k[1] != 1]),
-        "rule": "quick: a seeded sample of the matrix {5 signed policies} x {Sign, SignAndEncrypt} x {12 signature/certificate variants} that contains every variant and every policy x mode, plus None controls; thorough: the whole matrix (120 + 12) and seeded repeats; distinct = distinct (policy, mode, variant) with a secured mode",
+        "rule": "quick: a seeded sample of the matrix {5 signed policies} x {Sign, SignAndEncrypt} x {23 signature / certificate / algorithm-label variants} that contains every variant and every policy x mode, plus None controls; thorough: the whole matrix (230 + 23) and seeded repeats; distinct = distinct (policy, mode, variant) with a secured mode",
         "samples": [{k: o.get(k) for k in ("case", "outcome", "err", "obs", "activates")} for o in obs[len(replays):len(replays) + 3] + obs[-2:]],
         "outcomes": {"%s/%s/%s" % k: v for k, v in sorted(collections.Counter((o["case"]["s"]["sig"], "secured" if o["case"]["p"]["mode"] != 1 else "none", o["outcome"]) for o in obs).items())},
         "policies": sorted({o["case"]["s"]["policy"] for o in obs}),
